@@ -10,6 +10,7 @@ import (
 
 	"github.com/pion/stun/v3/verifharness/evid"
 	"github.com/pion/stun/v3/verifharness/gen"
+	"github.com/pion/stun/v3/verifharness/ref"
 	"pgregory.net/rapid"
 )
 
@@ -142,4 +143,127 @@ func FuzzGetters(f *testing.F) {
 			t.Fatalf("C07: %v", err)
 		}
 	})
+}
+
+// sealCorpus seeds the two seal targets with RFC 5769 and generated messages that hold
+// MESSAGE-INTEGRITY / FINGERPRINT at several positions.
+func seedSealCorpus(f *testing.F, withKey bool) {
+	f.Helper()
+	r, _ := hex.DecodeString(rfc5769Request)
+	add := func(b []byte, k []byte, knob uint8) {
+		if withKey {
+			f.Add(b, k, knob)
+		} else {
+			f.Add(b, knob)
+		}
+	}
+	add(r, []byte("VOkJxbRl1RmTxUk/WvJxBt"), 0)
+	add(r, []byte("VOkJxbRl1RmTxUk/WvJxBt"), 1)
+	for i := 0; i < 24; i++ {
+		c := rapid.Custom(func(t *rapid.T) c04Verify { c, _ := genC04Verify(t); return c }).Example(i)
+		add(unHex(c.Raw), unHex(c.Key), uint8(i))
+		d := rapid.Custom(func(t *rapid.T) c05Verify { c, _ := genC05Verify(t); return c }).Example(i)
+		add(unHex(d.Raw), []byte{byte(i)}, uint8(i))
+	}
+}
+
+// FuzzIntegrityVerdict: any decodable byte string x any key: Check == nil iff RFC 5389 15.4
+// verdict (ref.MIVerdict), and Check leaves the message as it was. The fuzzer cannot guess an
+// HMAC, so an odd knob writes the correct MAC (for the covered span of the first
+// MESSAGE-INTEGRITY attribute) into that attribute's first min(len,20) bytes; knob bit 1 then
+// flips one bit of it again.
+func FuzzIntegrityVerdict(f *testing.F) {
+	seedSealCorpus(f, true)
+	rec := evid.For("C04")
+	f.Fuzz(func(t *testing.T, data []byte, key []byte, knob uint8) {
+		if len(data) > 9000 || len(key) > 300 {
+			return
+		}
+		raw := unHex(fuzzInput(data, 0).Input)
+		r, ok := ref.Parse(raw)
+		if !ok {
+			return
+		}
+		variant := "fuzz"
+		if a, has := r.First(0x0008); has && knob&1 == 1 {
+			good := ref.HMACSHA1(key, ref.MICovered(raw, a.Off))
+			n := copy(raw[20+a.Off:20+a.Off+a.Len], good)
+			variant = "fuzz-correct"
+			if knob&2 == 2 && n > 0 {
+				p := int(knob>>2) % (n * 8)
+				raw[20+a.Off+p/8] ^= 1 << (p % 8)
+				variant = "fuzz-bitflip"
+			}
+		}
+		caps := []int{0, 1, 20, 64}
+		c := c04Verify{Raw: toHex(raw), Key: toHex(key), Variant: variant, Extra: caps[int(knob>>6)]}
+		if err := runC04Verify(c); err != nil {
+			rec.Violation("verify", c, err.Error())
+			t.Fatalf("C04: %v", err)
+		}
+	})
+}
+
+// FuzzFingerprintVerdict: any decodable byte string: Fingerprint.Check == nil iff the C05 iff
+// (ref.FPVerdict); an odd knob writes the reference CRC into the first FINGERPRINT attribute
+// (when it has 4 bytes), knob bit 1 flips one bit anywhere in the message afterwards.
+func FuzzFingerprintVerdict(f *testing.F) {
+	seedSealCorpus(f, false)
+	rec := evid.For("C05")
+	f.Fuzz(func(t *testing.T, data []byte, knob uint8) {
+		if len(data) > 9000 {
+			return
+		}
+		raw := unHex(fuzzInput(data, 0).Input)
+		r, ok := ref.Parse(raw)
+		if !ok {
+			return
+		}
+		variant := "fuzz"
+		if a, has := r.First(0x8028); has && a.Len == 4 && knob&1 == 1 && len(raw) >= 8 {
+			put32(raw[20+a.Off:], ref.Fingerprint(raw[:len(raw)-8]))
+			variant = "fuzz-correct"
+			if knob&2 == 2 {
+				p := (int(knob>>2) * 131) % (len(raw) * 8)
+				raw[p/8] ^= 1 << (p % 8)
+				variant = "fuzz-bitflip"
+				if _, ok := ref.Parse(raw); !ok {
+					return
+				}
+			}
+		}
+		caps := []int{0, 1, 4, 64}
+		c := c05Verify{Raw: toHex(raw), Variant: variant, Extra: caps[int(knob>>6)]}
+		if err := runC05Verify(c); err != nil {
+			rec.Violation("verify", c, err.Error())
+			t.Fatalf("C05: %v", err)
+		}
+	})
+}
+
+// FuzzBuildTrace / FuzzReuse: the rapid generators of C03 and C08 driven by the native
+// fuzzer's byte stream (rapid.MakeFuzz), so that coverage of message.go / the setters guides
+// the choice of operation sequences; same oracles as the rapid runs.
+func FuzzBuildTrace(f *testing.F) {
+	rec := evid.For("C03")
+	f.Fuzz(rapid.MakeFuzz(func(rt *rapid.T) {
+		c := c03Case{Start: genStart(rt)}
+		c.Ops = rapid.SliceOfN(rapid.Custom(genStep), 1, 40).Draw(rt, "ops")
+		if _, err := runC03(c); err != nil {
+			rec.Violation("trace", c, err.Error())
+			rt.Fatalf("C03: %v", err)
+		}
+	}))
+}
+
+func FuzzReuse(f *testing.F) {
+	rec := evid.For("C08")
+	f.Fuzz(rapid.MakeFuzz(func(rt *rapid.T) {
+		c := c08Case{Poison: rapid.SampledFrom([]byte{0xA5, 0xFF, 0x01, 0x80}).Draw(rt, "poison")}
+		c.Uses = rapid.SliceOfN(rapid.Custom(genUse), 2, 8).Draw(rt, "uses")
+		if _, err := runC08(c); err != nil {
+			rec.Violation("history", c, err.Error())
+			rt.Fatalf("C08: %v", err)
+		}
+	}))
 }
